@@ -11,6 +11,7 @@ pub mod c09;
 pub mod c10;
 pub mod c11;
 pub mod c12;
+pub mod c13;
 pub mod c14;
 pub mod c15;
 pub mod c16;
@@ -19,7 +20,7 @@ pub mod c20;
 
 use crate::core::run::{Check, Tier};
 
-pub const ALL: &[&str] = &["C01", "C02", "C03", "C04", "C05", "C06", "C07", "C08", "C09", "C10", "C11", "C12", "C14", "C15", "C16", "C18", "C20"];
+pub const ALL: &[&str] = &["C01", "C02", "C03", "C04", "C05", "C06", "C07", "C08", "C09", "C10", "C11", "C12", "C13", "C14", "C15", "C16", "C18", "C20"];
 
 pub fn build(id: &str, tier: Tier) -> Option<Check<'static>> {
     Some(match id {
@@ -40,6 +41,7 @@ pub fn build(id: &str, tier: Tier) -> Option<Check<'static>> {
         "C05" => c05::build(tier),
         "C02" => c02::build(tier),
         "C14" => c14::build(tier),
+        "C13" => c13::build(tier),
         _ => return None,
     })
 }
